@@ -29,7 +29,7 @@ D = 'contracts.ber_decoder'
 
 ENC_FRAMING = [(E, 'ber.encoder::AbstractItemEncoder.encodeTag'), (E, 'ber.encoder::AbstractItemEncoder.encodeLength'),
                (E, 'ber.encoder::AbstractItemEncoder.encode')]
-ENC_CONTENT = [(E, 'ber.encoder::BooleanEncoder.encodeValue'), (E, 'cer.encoder::BooleanEncoder.encodeValue'),
+ENC_CONTENT = [(E, 'ber.encoder::RealEncoder._dropFloatingPoint[integral-mantissa]'), (E, 'ber.encoder::RealEncoder.encodeValue[binary,base-2]'), (E, 'ber.encoder::BooleanEncoder.encodeValue'), (E, 'cer.encoder::BooleanEncoder.encodeValue'),
                (E, 'ber.encoder::NullEncoder.encodeValue'), (E, 'ber.encoder::IntegerEncoder.encodeValue'),
                (E, 'ber.encoder::ObjectIdentifierEncoder.encodeValue'),
                (E, 'ber.encoder::SequenceEncoder.encodeValue[value-object]'),
@@ -343,7 +343,7 @@ PROPS['C13']['level_text'] = ('Identifier octets equal X.690 8.1.2 for every cla
                               'contract of encode); the tag algebra is proved on the real TagSet methods: implicit tagging replaces '
                               'exactly the outermost tag and keeps its form, explicit tagging adds one constructed tag and refuses '
                               'UNIVERSAL. Accept/reject against perturbed types and whole stacks are a bounded stand-in.')
-PROPS['C04']['contracts'] = PROPS['C04']['contracts'] + ENC_CONTENT[5:7]
+PROPS['C04']['contracts'] = PROPS['C04']['contracts'] + ENC_CONTENT[7:9]
 UN = 'contracts.univ_native'
 CHOICE = [(UN, 'type.univ::Choice.setComponentByPosition'), (UN, 'type.univ::Choice.clear'), (UN, 'type.univ::Choice.reset'),
           (UN, 'type.univ::Choice.__eq__[choice-vs-choice]')]
